@@ -1,4 +1,6 @@
 """C20 — transform setters notify listeners with the value that was stored (spec/Transform.tla)."""
+from concurrent.futures import ThreadPoolExecutor
+
 from .. import common, replay
 from ..adapters.transform import TransformAdapter
 
@@ -17,11 +19,9 @@ def consts(t2, t3, vecs, ops, rot='Rot_All', subs='Subs_Some', ctor='Ctor_Some',
     return c, ov
 
 
-def check_and_replay(res, name, t2, t3, c, ov, depth_all=4, walks=1500, walk_len=20):
-    """(M) all declarative properties on the instance; (C) its whole graph replayed on the real classes."""
+def replay_graph(res, name, g, kinds, depth_all=4, init_stride=1, walks=1500, walk_len=20):
+    """(C) the whole graph of one instance replayed on the real classes."""
     desper = common.import_desper()
-    r, g = res.model_check('TransformMC', name, c, invariants=INVARIANTS, properties=PROPERTIES, overrides=ov, dump=True)
-    kinds = dict([(t, '2d') for t in t2] + [(t, '3d') for t in t3])
 
     def factory():
         return TransformAdapter(desper, kinds)
@@ -29,10 +29,8 @@ def check_and_replay(res, name, t2, t3, c, ov, depth_all=4, walks=1500, walk_len
     st = replay.run_paths(g, factory, replay.edge_paths(g))
     res.absorb(st, name + ':every-edge', g)
     if not st.n_violations and depth_all:
-        # Build + (depth_all - 1) calls from one initial state per constructor/subscription choice would be
-        # |Init| * 16^k paths: the exhaustive short paths start from every 7th initial state
-        some = g.init[::7] or g.init
-        saved, g.init = g.init, some
+        # Build + every sequence of (depth_all - 1) calls; from every init_stride-th initial state only
+        saved, g.init = g.init, g.init[::init_stride]
         try:
             st = replay.run_paths(g, factory, replay.all_paths(g, depth_all))
         finally:
@@ -42,10 +40,8 @@ def check_and_replay(res, name, t2, t3, c, ov, depth_all=4, walks=1500, walk_len
         st = replay.run_paths(g, factory, replay.random_walks(g, walks, walk_len, res.seed))
         res.absorb(st, name + ':random-walks', g)
     for s, labs, _t in replay.random_walks(g, 1, 7, res.seed + 1):
-        res.sample({'instance': name, 'init': {'subs': str(dict(g.states[s]['subs'])), 'ctor': str(dict(g.states[s]['ctor'])),
-                                               'reg': str(dict(g.states[s]['reg']))},
+        res.sample({'instance': name, 'init': {k: str(dict(g.states[s][k])) for k in ('subs', 'ctor', 'reg')},
                     'calls': ['%s%s' % (n, list(a)) for n, a in labs]})
-    return g
 
 
 def run(res):
@@ -60,22 +56,48 @@ def run(res):
         'sharing of default objects between instances is flagged only if the shared object is mutable (Vec types are tuples)',
     ]
     vecs = ['va', 'vb']
-    # one 2D transform, the full rotation alphabet, listeners added and removed, every constructor shape
-    c, ov = consts(['p'], [], vecs, True)
-    check_and_replay(res, 'c20_2d', ['p'], [], c, ov, depth_all=4, walks=1500)
-    # one 3D transform (vector rotation, not reduced)
-    c, ov = consts([], ['q'], vecs, True, rot='Rot_Few')
-    check_and_replay(res, 'c20_3d', [], ['q'], c, ov, depth_all=4, walks=800)
-    # two transforms with different (overlapping) listener sets: cross-talk between instances and between events,
-    # default values of one instance after assignments on the other
-    c, ov = consts(['p'], ['q'], ['va'], False, rot='Rot_Few', subs='Subs_Two', ctor='Ctor_Shapes', reg='Reg_Cross')
-    check_and_replay(res, 'c20_2d3d', ['p'], ['q'], c, ov, depth_all=4, walks=1000)
-    c, ov = consts(['p', 'q'], [], ['va'], False, rot='Rot_Few', subs='Subs_Two', ctor='Ctor_Shapes', reg='Reg_Cross')
-    check_and_replay(res, 'c20_2d2d', ['p', 'q'], [], c, ov, depth_all=4, walks=1000)
-    if thorough:
-        c, ov = consts(['p'], ['q'], vecs, True, subs='Subs_Two', ctor='Ctor_None')
-        res.model_check('TransformMC', 'c20_big', c, invariants=INVARIANTS, properties=PROPERTIES, overrides=ov)
-    # non-vacuity, D20: with the setter as written at 05622c8 (dispatches the raw value) TLC finds the violation
-    c, ov = consts(['p'], [], vecs, True, d20=False)
-    res.model_check('TransformMC', 'c20_asimpl_rotation', c, invariants=INVARIANTS, properties=PROPERTIES, overrides=ov,
-                    expect_violation='NotifiedValueIsReadBack', count=False)
+    instances = [
+        # one 2D transform, the full rotation alphabet, listeners added and removed, every constructor shape
+        ('c20_2d', ['p'], [], consts(['p'], [], vecs, True), dict(init_stride=6, walks=1500)),
+        # one 3D transform (rotation is a vector, stored as given)
+        ('c20_3d', [], ['q'], consts([], ['q'], vecs, True, rot='Rot_Few'), dict(init_stride=3, walks=800)),
+        # two transforms with different, overlapping listener sets: cross-talk between instances and between
+        # events, values (defaults included) of one instance while the other one is assigned
+        ('c20_2d3d', ['p'], ['q'], consts(['p'], ['q'], ['va'], False, rot='Rot_Few', subs='Subs_Two',
+                                          ctor='Ctor_Shapes', reg='Reg_Cross'), dict(walks=1000)),
+        ('c20_2d2d', ['p', 'q'], [], consts(['p', 'q'], [], ['va'], False, rot='Rot_Few', subs='Subs_Two',
+                                            ctor='Ctor_Shapes', reg='Reg_Cross'), dict(walks=1000)),
+    ]
+
+    def mc(inst):
+        name, _t2, _t3, (c, ov), _kw = inst
+        return res.model_check('TransformMC', name, c, invariants=INVARIANTS, properties=PROPERTIES, overrides=ov,
+                               dump=True, count=False, workers=4)
+
+    def asimpl():
+        # non-vacuity, D20: with the setter as written at 05622c8 (dispatches the raw value) TLC finds the violation
+        c, ov = consts(['p'], [], vecs, True, d20=False)
+        res.model_check('TransformMC', 'c20_asimpl_rotation', c, invariants=INVARIANTS, properties=PROPERTIES,
+                        overrides=ov, expect_violation='NotifiedValueIsReadBack', count=False, workers=4)
+
+    def big():
+        # (M) only: both kinds together, every rotation, listeners added and removed on both (too large to replay)
+        c, ov = consts(['p'], ['q'], vecs if thorough else ['va'], True, subs='Subs_Some' if thorough else 'Subs_Two',
+                       ctor='Ctor_None')
+        return res.model_check('TransformMC', 'c20_both_full', c, invariants=INVARIANTS, properties=PROPERTIES,
+                               overrides=ov, count=False, workers=8)
+
+    # the TLC runs are independent processes: start them together, replay as the graphs arrive
+    with ThreadPoolExecutor(len(instances) + 2) as pool:
+        futs = [pool.submit(mc, i) for i in instances]
+        others = [pool.submit(asimpl), pool.submit(big)]
+        for inst, fut in zip(instances, futs):
+            name, t2, t3, _c, kw = inst
+            r, g = fut.result()
+            res.states += r.distinct
+            res.transitions += r.states
+            replay_graph(res, name, g, dict([(t, '2d') for t in t2] + [(t, '3d') for t in t3]), **kw)
+        others[0].result()
+        r, _g = others[1].result()
+        res.states += r.distinct
+        res.transitions += r.states
